@@ -98,14 +98,22 @@ unsafe impl GlobalAlloc for Track {
     }
 }
 
-/// The record (index, offset) whose address range contains `addr`.
+/// The record (index, offset) whose address range contains `addr` (newest first).  A pointer one
+/// past the end (the data pointer of an empty slice / zero-sized payload) belongs to the block it
+/// ends, unless another recorded block starts exactly there.
 pub fn rec_of(addr: usize) -> Option<(usize, usize)> {
     unsafe {
         let mut i = NREC;
         while i > 0 {
             i -= 1;
             let r = &RECS[i];
-            if r.addr != 0 && addr >= r.addr && addr < r.addr + r.size.max(1) { return Some((i, addr - r.addr)); }
+            if r.addr != 0 && addr >= r.addr && addr < r.addr + r.size { return Some((i, addr - r.addr)); }
+        }
+        let mut i = NREC;
+        while i > 0 {
+            i -= 1;
+            let r = &RECS[i];
+            if r.addr != 0 && addr == r.addr + r.size { return Some((i, addr - r.addr)); }
         }
     }
     None
